@@ -919,6 +919,126 @@ def route_serial(ctx, corr, ids, picks):
     corr.count("serial_routing", traces)
 
 
+DELIVERY = ["separate", "one-chunk", "back-to-back", "straddled"]
+
+
+def route_serial_delivery(ctx, corr, ids, picks, found):
+    """LUBA / SCI: how the gateway's reports for ONE transmission reach `data_received`.
+
+    For every frame the driver writes, the fake gateway produces the protocol's
+    reports - "frame sent" (twice for a LUBA send-twice command) and, after the
+    caller's own command, the bus outcome (8-bit backward frame / framing-error
+    event / nothing) - and hands them to the real protocol object 17 ms later
+      separate      one `data_received` per report, the outcome 12 ms after the confirmation
+      one-chunk     every pending report in ONE `data_received` call (one serial read)
+      back-to-back  one call per report, but without the event loop running in between
+                    (the loop was busy: both reader callbacks run before the sender resumes)
+      straddled     the chunk boundary falls inside the outcome report
+    for single callers (every command kind incl. device-type-prefixed ones x
+    silent / value / garbled) and for 2-3 callers queued on the transaction lock.
+    Oracle: each caller gets the value the gateway reported for ITS command."""
+    traces = 0
+    ks = cmdlib.kinds(found)
+    pool = [picks[k] for k in KINDS] + [c for (bits, q, tw, dt), c in sorted(ks.items(), key=lambda kv: kv[0]) if dt]
+
+    async def scenario(loop, kind, callers, pattern, stray, queued):
+        ss = await sim.SerialSim(kind).start()
+        d = ss.d
+        history, toks, expect = [], [], []
+        serving = [0]
+
+        def say(reports):
+            return [r.hex() for r in reports]
+
+        def on_write(b):
+            i = serving[0]
+            c, bus = callers[i]
+            fr = ss.frame_of_write(b)
+            own = fr == bytes(c.frame.as_byte_sequence)
+            confs = ss.confirmations(b)
+            outcome = ss.outcome_report(bus) if own else []
+            history.append("caller %d writes %s%s" % (i, fr.hex(), "" if own else " (ENABLE DEVICE TYPE prefix)"))
+            history.append("gateway, 17 ms later, %s: confirmation %s%s" % (
+                pattern, say(confs), (" + outcome %s" % say(outcome)) if outcome else ""))
+            if own:
+                serving[0] += 1
+            if pattern == "separate":
+                def first():
+                    for r in confs:
+                        ss.feed(r)
+                loop.call_later(0.017, first)
+                for r in outcome:
+                    loop.call_later(0.029, ss.feed, r)
+            elif pattern == "one-chunk":
+                loop.call_later(0.017, ss.feed, b"".join(confs + outcome))
+            elif pattern == "back-to-back":
+                def burst():
+                    for r in confs + outcome:
+                        ss.feed(r)
+                loop.call_later(0.017, burst)
+            else:
+                data = b"".join(confs + outcome)
+                cut = len(b"".join(confs)) + 2 if outcome else len(data) - 2
+                loop.call_later(0.017, ss.feed, data[:cut])
+                loop.call_later(0.019, ss.feed, data[cut:])
+        ss.tr.on_write = on_write
+        if stray is not None:
+            ss.rx([stray])
+            toks.append("X.%d" % stray)
+            expect.append("-")
+            history.append("backward frame %d seen while idle" % stray)
+        tasks = []
+        if queued:
+            tasks = [asyncio.ensure_future(d.send(c)) for c, _ in callers]
+        results = []
+        for i, (c, bus) in enumerate(callers):
+            t = tasks[i] if queued else asyncio.ensure_future(d.send(c))
+            try:
+                r = "ok." + canon_answer(await t, ids)
+            except BaseException as e:  # noqa
+                r = "err." + type(e).__name__
+            toks.append("L.%d.%s" % (i, ids.tok(c.response)))
+            expect.append("-")
+            if bus[0] == "v":
+                toks.append("X.%s" % bus[1:])
+                expect.append("-")
+            toks.append("Q.%d.%s" % (i, "take" if (bus[0] == "v" and c.response is not None) else "giveup"))
+            expect.append(r)
+            results.append(r.replace(".", " ", 1))
+            await sim.settle(2)
+        return toks, expect, results, history
+
+    def run_one(kind, callers, pattern, stray, queued):
+        nonlocal traces
+        toks, expect, results, history = sim.run(scenario, kind, callers, pattern, stray, queued)
+        line = "queroute 1 " + " ".join(toks)
+        ans = ask([line])[0]
+        got = ans.split()[1:] if ans.startswith("ok") else [ans]
+        if got != expect:
+            corr.disagree(kind + "_routing", {"trace": line, "history": history}, got, expect)
+        for i, (c, bus) in enumerate(callers):
+            check_table(corr, kind, c, bus, results[i], ids,
+                        history={"routing": history, "delivery": pattern, "caller": i, "command": str(c),
+                                 "bus": bus, "queued": queued})
+            corr.nontrivial((kind, "delivery", pattern, c.response is not None, bus[0], len(callers) > 1))
+        traces += 1
+    rng = ctx.rng
+    for kind in ("luba", "sci"):
+        for pattern in DELIVERY:
+            for c in pool:
+                for bus in (["s", "g", "v%d" % rng.randrange(256), "v0", "v255"] if c.response is not None else ["s"]):
+                    run_one(kind, [(c, bus)], pattern, rng.choice([None, None, rng.randrange(256)]), False)
+            for _ in range(60 if ctx.thorough else 12):
+                k = rng.randrange(2, 4)
+                callers = []
+                for _ in range(k):
+                    c = rng.choice(pool)
+                    callers.append((c, bus_of(rng, c.response)))
+                run_one(kind, callers, pattern, rng.choice([None, rng.randrange(256)]), rng.random() < 0.7)
+    corr.count("traces", traces)
+    corr.count("serial_delivery", traces)
+
+
 # ---------------------------------------------------------------------------
 
 def replay(ctx, payload):
